@@ -43,6 +43,9 @@ def run(run):
         rng.shuffle(alt)
         reqs.append("compact " + cg.fmt(cells)); meta.append((k, "A"))
         reqs.append("compact " + cg.fmt(alt)); meta.append((k, "B"))
+        # the same cells in ascending and in descending numeric order (an input that "looks sorted" must not take a different path)
+        reqs.append("compact " + (cg.fmt(sorted(cells)) if (k < 3 or rng.random() < 0.5) else cg.fmt(cells[:1]))); meta.append((k, "S"))
+        reqs.append("compact " + (cg.fmt(sorted(alt, reverse=True)) if (k < 3 or rng.random() < 0.3) else cg.fmt(cells[:1]))); meta.append((k, "D"))
     impl, model = core.both(run, reqs, "compact", canon=lambda q, a: ("ok " + cg.fmt(sorted(cg.parse_list(a)))) if a.startswith("ok ") else a)
     again, ameta = [], []
     res = {}
@@ -57,7 +60,10 @@ def run(run):
         p = cg.has_complete_group(out)
         if p is not None:
             run.violation(f"the compacted result still contains the complete sibling group of {p:#x}", q[:600], a[:300], {"kind": kind})
-        if tag == "A":
+        if tag in ("S", "D") and len(q.split()[1].split(",")) < min(2, len(cells)):
+            res.pop((k, tag), None)          # placeholder request (variant not generated for this set)
+            continue
+        if tag in ("A", "S"):
             want = cg.canonical_cover(cells)
             if set(out) != want:
                 run.violation("the compacted result is not the canonical cover of the region", q[:600], a[:300], {"kind": kind, "expected": sorted(want)[:30]})
@@ -65,11 +71,13 @@ def run(run):
                 run.nontrivial.add(k)
         again.append("compact " + cg.fmt(out)); ameta.append((k, tag))
     for k in range(len(sets)):
-        if (k, "A") in res and (k, "B") in res:
-            run.evaluations += 1
-            if set(res[(k, "A")]) != set(res[(k, "B")]):
-                run.violation("two non-overlapping inputs covering the same region compact to different sets", [reqs[2 * k][:400], reqs[2 * k + 1][:400]],
-                              f"{impl[2 * k][:150]} / {impl[2 * k + 1][:150]}")
+        for other in ("B", "S", "D"):
+            if (k, "A") in res and (k, other) in res:
+                run.evaluations += 1
+                if set(res[(k, "A")]) != set(res[(k, other)]):
+                    j = {"B": 1, "S": 2, "D": 3}[other]
+                    run.violation("two non-overlapping inputs covering the same region compact to different sets", [reqs[4 * k][:400], reqs[4 * k + j][:400]],
+                                  f"{impl[4 * k][:150]} / {impl[4 * k + j][:150]}")
     ai, am = core.both(run, again, "compact-again", canon=lambda q, a: ("ok " + cg.fmt(sorted(cg.parse_list(a)))) if a.startswith("ok ") else a)
     for (k, tag), q, a in zip(ameta, again, ai):
         run.evaluations += 1
@@ -77,7 +85,7 @@ def run(run):
         if out is None or set(out) != set(res[(k, tag)]) or len(out) != len(res[(k, tag)]):
             run.violation("compacting the compacted result changes it", q[:600], a[:300])
     run.rule = ("non-overlapping sets: the repaired-defect witness and whole-sphere covers first, then random antichains and fully subdivided roots (world/base/quintant/deep roots on several faces) "
-                "whose groups complete only after earlier merges; each paired with a second antichain of the same region obtained by random re-subdivision; "
+                "whose groups complete only after earlier merges; each paired with a second antichain of the same region obtained by random re-subdivision, and both also given in ascending / descending numeric order; "
                 "oracle = independent bottom-up canonical cover on the tree; non-trivial = distinct sets on which at least one merge happened")
     run.samples = [{"request": reqs[i][:200], "impl": impl[i][:200]} for i in rng.sample(range(len(reqs)), 5)]
     kinds = {}
